@@ -523,6 +523,7 @@ func C14(r *core.Run) map[string]interface{} {
 	for _, src := range []string{
 		`{{ "a" | f3(_, _, 2.5) }}`, `{{ "a" | f2(_, _) }}`, `{{ 1 | jf(_, _) }}`,
 		`{{ "a" | raw | f1 }}`, `{{ "a" | safeHtml | up }}`, `{{ raw: "a" | f1 }}`, `{{ "a" | unsafe | raw }}`,
+		`{{ raw: "a" | jf }}`, `{{ raw("a") | jf }}`, `{{ unsafe: "a", "b" | jf }}`, `{{ safeHtml("<a>") | jf("x") }}`, // a safe writer as the *first* stage
 		`{{ f2("a", _) }}`, `{{ jf(_) }}`, `{{ "a" | undefinedFn }}`, `{{ "a" | sv }}`, `{{ "a" | f1() | 3 }}`,
 	} {
 		jobs = append(jobs, job{c14Case{Form: "reject", Source: src, WantErr: true}, "reject"})
